@@ -17,6 +17,7 @@ deriving Repr, DecidableEq
 
 inductive RdErr where
   | eof | timeout   -- wire ends (raw io.EOF / net timeout)
+  | hzTimeout       -- hertz's own ErrTimeout (trailer/header read timed out): not a net.Error
   | unexpectedEOF   -- io.ErrUnexpectedEOF
   | bad             -- malformed
   | tooLarge
